@@ -15,6 +15,11 @@
 //   C04  every produced event is well-formed and was produced within the step budget.
 //   C08  the same plans in the ASan+UBSan flavour: a sanitizer report kills the worker (runner).
 #include "configs.h"
+#include <sys/prctl.h>
+#include <sys/wait.h>
+#include <unistd.h>
+#include <csignal>
+#include <cstring>
 #include "simfs.h"
 #include "simrandom.h"
 #include <memory>
@@ -161,6 +166,111 @@ const Canon & canonical(const GenCfg & cfg, const Op & shoot)
   return cache[key] = c;
 }
 
+// ---- references from a pristine process (pristine-process batches) -----------------------------------------
+// The canonical history above is computed in the process that also runs the histories under test: a value that
+// the library freezes at its first use in a process (a function-local static initialised from instance data)
+// is then frozen for the reference as well. In pristine-process batches the run therefore starts, before it
+// touches the library, a small server (a forked child that stays pristine); every reference is computed by a
+// grandchild forked from that server, i.e. in a process in which nothing happened before.
+struct RefServer
+{
+  int req = -1, resp = -1; pid_t pid = -1;
+  std::map<std::string, Canon> cache;
+  i64 died = 0;
+  ~RefServer() { stop(); }
+  static bool write_all(int fd, const std::string & d)
+  {
+    size_t off = 0;
+    while (off < d.size()) { ssize_t w = ::write(fd, d.data() + off, d.size() - off); if (w < 0 && errno == EINTR) continue; if (w <= 0) return false; off += (size_t)w; }
+    return true;
+  }
+  static bool read_n(int fd, std::string & d, size_t n)
+  {
+    d.resize(n); size_t off = 0;
+    while (off < n) { ssize_t r = ::read(fd, &d[off], n - off); if (r < 0 && errno == EINTR) continue; if (r <= 0) return false; off += (size_t)r; }
+    return true;
+  }
+  static bool send_msg(int fd, const std::string & m) { u64 n = m.size(); std::string h((const char *)&n, sizeof n); return write_all(fd, h + m); }
+  static bool recv_msg(int fd, std::string & m) { std::string h; if (!read_n(fd, h, sizeof(u64))) return false; u64 n; memcpy(&n, h.data(), sizeof n); if (n > (1u << 24)) return false; return read_n(fd, m, (size_t)n); }
+  static void put_s(std::ostringstream & o, const std::string & x) { o << x.size() << ' ' << x << ' '; }
+  static std::string get_s(std::istringstream & i) { size_t n = 0; i >> n; i.get(); std::string x(n, ' '); if (n) i.read(&x[0], (std::streamsize)n); return x; }
+  static std::string encode(const Canon & c)
+  {
+    std::ostringstream o;
+    o << c.budget << ' ' << c.init_ok << ' ' << c.shot_ok << ' ' << c.toall << ' ' << c.draws << ' ' << c.ev.time << ' ' << c.ev.parts.size() << ' ';
+    for (auto & q : c.ev.parts) o << q.code << ' ' << q.t << ' ' << q.px << ' ' << q.py << ' ' << q.pz << ' ';
+    put_s(o, c.ev.label); put_s(o, c.err);
+    return o.str();
+  }
+  static Canon decode(const std::string & m)
+  {
+    Canon c; std::istringstream i(m); size_t np = 0;
+    i >> c.budget >> c.init_ok >> c.shot_ok >> c.toall >> c.draws >> c.ev.time >> np;
+    for (size_t k = 0; k < np && k < 100000; k++) { PartRec q; i >> q.code >> q.t >> q.px >> q.py >> q.pz; c.ev.parts.push_back(q); }
+    c.ev.label = get_s(i); c.err = get_s(i);
+    return c;
+  }
+  void start()
+  {
+    int a[2], b[2];
+    if (pipe(a) != 0) return;
+    if (pipe(b) != 0) { close(a[0]); close(a[1]); return; }
+    fflush(stdout); fflush(stderr);
+    pid = fork();
+    if (pid < 0) { close(a[0]); close(a[1]); close(b[0]); close(b[1]); return; }
+    if (pid == 0) {
+      prctl(PR_SET_PDEATHSIG, SIGKILL);
+      close(a[1]); close(b[0]);
+      std::string m;
+      while (recv_msg(a[0], m)) {
+        pid_t g = fork();
+        if (g == 0) {
+          prctl(PR_SET_PDEATHSIG, SIGKILL);
+          std::istringstream i(m);
+          GenCfg cfg; Op shoot; shoot.k = "shoot"; size_t na = 0;
+          i >> cfg.cat >> cfg.level >> cfg.mode >> cfg.emin_keV >> cfg.emax_keV >> cfg.mdl >> na;
+          for (size_t k = 0; k < na && k < 64; k++) { i64 v; i >> v; shoot.a.push_back(v); }
+          cfg.nuc = get_s(i);
+          Canon c = canonical(cfg, shoot);
+          send_msg(b[1], "R" + encode(c));
+          _exit(0);
+        }
+        int st = 0; while (g > 0 && waitpid(g, &st, 0) < 0 && errno == EINTR) {}
+        if (g < 0 || !WIFEXITED(st) || WEXITSTATUS(st) != 0) send_msg(b[1], "D");
+      }
+      _exit(0);
+    }
+    close(a[0]); close(b[1]);
+    req = a[1]; resp = b[0];
+  }
+  void stop()
+  {
+    if (req >= 0) close(req);
+    if (resp >= 0) close(resp);
+    req = resp = -1;
+    if (pid > 0) { int st; while (waitpid(pid, &st, 0) < 0 && errno == EINTR) {} }
+    pid = -1;
+  }
+  bool up() const { return req >= 0; }
+  /// nullptr when the reference process did not deliver (it died: decided elsewhere, by the run in this process)
+  const Canon * get(const GenCfg & cfg, const Op & shoot)
+  {
+    std::string key = cfg.key() + "|" + std::to_string(shoot.arg(1)) + "|" + steer_key(shoot, 5);
+    auto it = cache.find(key);
+    if (it != cache.end()) return it->second.budget && it->second.err == "reference process died" ? nullptr : &it->second;
+    std::ostringstream o;
+    o << cfg.cat << ' ' << cfg.level << ' ' << cfg.mode << ' ' << cfg.emin_keV << ' ' << cfg.emax_keV << ' ' << cfg.mdl << ' ' << shoot.a.size() << ' ';
+    for (i64 v : shoot.a) o << v << ' ';
+    put_s(o, cfg.nuc);
+    std::string m;
+    Canon c;
+    if (!send_msg(req, o.str()) || !recv_msg(resp, m) || m.empty() || m[0] != 'R') { c.budget = true; c.err = "reference process died"; died++; }
+    else c = decode(m.substr(1));
+    auto & slot = cache[key] = c;
+    return slot.budget && slot.err == "reference process died" ? nullptr : &slot;
+  }
+};
+
 struct Inst
 {
   std::unique_ptr<bxdecay0::decay0_generator> gen;
@@ -191,6 +301,13 @@ Outcome run_gen(const Plan & plan, const RunCtx & ctx)
   for (int i = 0; i < NS; i++) { slot[i].reset(new bxdecay0::event); slot_state[i] = "fresh"; }
   install_ga(plan);
   g_ga_mask = plan.hint("ga", 0);
+  RefServer refs;
+  if (plan.hint("pristine_ref", 0) != 0) refs.start();
+  // the reference for (configuration, stream): from the pristine reference process when there is one
+  auto reference = [&](const GenCfg & c, const Op & shoot) -> const Canon & {
+    if (refs.up()) { const Canon * pc = refs.get(c, shoot); if (pc) { out.ctr["references_from_pristine_process"]++; return *pc; } out.ctr["diag_pristine_reference_unavailable"]++; }
+    return canonical(c, shoot);
+  };
   // post-generation operations are caller-owned shared_ptr objects: in half of the runs the client keeps ONE
   // object per preset and registers it in every generator (and again after reset), as an application would
   const bool share_ops = plan.hint("share_ops", 0) != 0;
@@ -264,7 +381,7 @@ Outcome run_gen(const Plan & plan, const RunCtx & ctx)
       if (!faulted && check07) {
         // acceptance itself must not depend on history
         Op probe; probe.k = "shoot"; probe.a = {0, 0, 0, -1, -1};
-        const Canon & c = canonical(I.cfg, probe);
+        const Canon & c = reference(I.cfg, probe);
         if (!c.budget && c.init_ok != ok) {
           out.fail("C07", "init-outcome-differs", "init-outcome-differs cfg=" + cfg_class(I.cfg),
                    "op#" + std::to_string(oi) + " initialize " + (ok ? "succeeded" : "failed (" + err + ")") + " for " + I.cfg.key()
@@ -330,7 +447,7 @@ Outcome run_gen(const Plan & plan, const RunCtx & ctx)
         } else if (!faulted) {
           // an initialised generator refused to generate: a difference from the canonical history if that one shoots
           if (check07) {
-            const Canon & c = canonical(I.cfg, op);
+            const Canon & c = reference(I.cfg, op);
             if (c.shot_ok && !c.budget)
               out.fail("C07", "shot-outcome-differs", "shot-outcome-differs cfg=" + cfg_class(I.cfg),
                        "op#" + std::to_string(oi) + " shoot threw (" + err + ") but the canonical history yields an event for " + I.cfg.key());
@@ -367,7 +484,7 @@ Outcome run_gen(const Plan & plan, const RunCtx & ctx)
       }
       // C07 oracle
       if (want_canon) {
-        const Canon & c = canonical(I.cfg, op);
+        const Canon & c = reference(I.cfg, op);
         tr.add(c.shot_ok ? c.ev.hash() : 0);
         n_compared++;
         if (check07 && !c.budget) {
@@ -476,6 +593,11 @@ GenCfg variant_of(Rng & r, const GenCfg & c0)
       std::vector<const DbdEntry *> alt;
       for (auto & x : dbd_catalogue()) if (x.nuc == c.nuc && (x.level != c.level || x.mode != c.mode) && x.qng_calls == 0) alt.push_back(&x);
       if (!alt.empty()) { const DbdEntry * a = r.pick(alt); c.level = a->level; c.mode = a->mode; c.emin_keV = c.emax_keV = -1; }
+    } else if (d < 9) {
+      // sibling: the same mode for another nuclide (the per-mode sampler is the code the two share)
+      std::vector<const DbdEntry *> alt;
+      for (auto & x : dbd_catalogue()) if (x.nuc != c.nuc && x.mode == c.mode && x.qng_calls == 0) alt.push_back(&x);
+      if (!alt.empty()) { const DbdEntry * a = r.pick(alt); c.nuc = a->nuc; c.level = a->level; c.emin_keV = c.emax_keV = -1; }
     } else c.mdl = (c0.mdl == 0) ? (int)r.range(1, mdl_presets()) : 0;
   } else {
     c.mdl = (c0.mdl == 0) ? (int)r.range(1, mdl_presets()) : 0;
@@ -510,6 +632,7 @@ Plan gen_hist(u64 seed, u64 idx, const RunCtx & ctx)
   Rng r(hmix(hmix(seed, hstr("gen-hist")), idx));
   bool faults = (idx % 3) != 0;
   p.hdr["faults"] = faults ? "1" : "0";
+  p.hdr["pristine_ref"] = ctx.fresh ? "1" : "0";
   p.hdr["share_ops"] = r.chance(0.5) ? "1" : "0";
   p.hdr["ga"] = std::to_string((i64)(r.next() & 0x3ffff) | (r.chance(0.7) ? 0xffff : 0)); // which (nuclide, process) datasets exist on the simulated disk
   bool cheap = ctx.tier != "thorough" || r.chance(0.8);
@@ -679,6 +802,47 @@ std::vector<Op> simplify_gen(const Op & op)
 
 SuiteRegistrar reg_hist({"gen-hist", "interleaved API histories over a pool of generators and event objects (C07/C08/C04)", gen_hist, run_gen,
                          simplify_gen, nullptr});
+/// Systematic companion for the pristine-reference batch: 2-3 instances of the SAME DBD mode for DIFFERENT nuclides
+/// (run index enumerates the modes), initialised in a drawn order, then shot alternately. What such instances share
+/// beyond the common helpers is the per-mode sampler; anything it keeps from the first instance shows in the others.
+Plan gen_siblings(u64 seed, u64 idx, const RunCtx & ctx)
+{
+  Plan p; p.suite = "gen-siblings"; p.seed = seed; p.idx = idx;
+  Rng r(hmix(hmix(seed, hstr("gen-siblings")), idx));
+  static std::map<int, std::vector<DbdEntry>> by_mode;
+  static std::vector<int> modes;
+  if (modes.empty()) {
+    for (auto & e : dbd_catalogue()) if (e.qng_calls < 400) by_mode[e.mode].push_back(e);
+    for (auto & m : by_mode) { std::set<std::string> nucs; for (auto & e : m.second) nucs.insert(e.nuc); if (nucs.size() >= 2) modes.push_back(m.first); }
+  }
+  p.hdr["faults"] = "0";
+  p.hdr["pristine_ref"] = ctx.fresh ? "1" : "0";
+  p.hdr["share_ops"] = "0";
+  p.hdr["ga"] = "0";
+  int mode = modes[(size_t)((idx + hmix(seed, 78) % modes.size()) % modes.size())];
+  const auto & v = by_mode[mode];
+  int ng = (int)r.range(2, 3);
+  std::vector<GenCfg> cfgs;
+  for (int g = 0; g < ng; g++) {
+    const DbdEntry * e = &r.pick(v);
+    for (int t = 0; t < 50; t++) { bool dup = false; for (auto & c : cfgs) if (c.nuc == e->nuc) dup = true; if (!dup) break; e = &r.pick(v); }
+    GenCfg c; c.cat = 1; c.nuc = e->nuc; c.level = e->level; c.mode = e->mode;
+    if (mode_supports_window(c.mode) && r.chance(0.3)) pick_window(r, *e, c);
+    cfgs.push_back(c);
+  }
+  for (int g = 0; g < ng; g++) {
+    p.ops.push_back(op_cfg(g, cfgs[(size_t)g]));
+    Op in; in.k = "init"; in.a = {g, (i64)r.below(1000), -1, -1}; p.ops.push_back(in);
+    if (r.chance(0.5)) p.ops.push_back(op_shoot(g, (i64)r.below(6), (int)r.below(NS)));
+  }
+  int nops = (int)r.range(3, 10);
+  for (int k = 0; k < nops; k++) p.ops.push_back(op_shoot((int)r.below((u64)ng), (i64)r.below(6), (int)r.below(NS)));
+  return p;
+}
+
+SuiteRegistrar reg_siblings({"gen-siblings", "2-3 instances of the same DBD mode for different nuclides, modes enumerated (C07, pristine-reference batch)", gen_siblings, run_gen,
+                             simplify_gen, nullptr});
+
 SuiteRegistrar reg_sweep({"gen-sweep", "per-configuration sweeps with tail-steered deviates (C04/C08)", gen_sweep, run_gen, simplify_gen, nullptr});
 
 } // namespace
